@@ -327,6 +327,30 @@ def writes_process_state(fn, mutables):
     return False
 
 
+def writes_instance_state(fn):
+    """does a method other than __init__ write an attribute of self (self.x = .., self.x op= .., self.x[k] = .., self.x.append(..))
+    -- state that survives on the transform object from one call to the next"""
+    if fn.name == '__init__' or not fn.args.args or fn.args.args[0].arg != 'self':
+        return False
+    for n in ast.walk(fn):
+        tgs = []
+        if isinstance(n, ast.Assign):
+            tgs = n.targets
+        elif isinstance(n, ast.AugAssign) or (isinstance(n, ast.AnnAssign) and n.value is not None):
+            tgs = [n.target]           # a bare annotation `self.x: T` is a type hint, not a write
+        for tg in tgs:
+            for x in (tg.elts if isinstance(tg, (ast.Tuple, ast.List)) else [tg]):
+                b = x
+                while isinstance(b, ast.Subscript):
+                    b = b.value
+                if isinstance(b, ast.Attribute) and isinstance(b.value, ast.Name) and b.value.id == 'self':
+                    return True
+        if isinstance(n, ast.Call) and isinstance(n.func, ast.Attribute) and n.func.attr in STATE_METHODS \
+                and isinstance(n.func.value, ast.Attribute) and isinstance(n.func.value.value, ast.Name) and n.func.value.value.id == 'self':
+            return True
+    return False
+
+
 def entropy_star(t, fn, _seen=None):
     """entropy sources of fn and of every module-level package function it (transitively) calls,
     resolved by bare name (F.cutout, Fdicom.add_noise_nps, _noise_to_3d, ...)"""
@@ -598,6 +622,8 @@ def main(out_dir):
         e = entropy_of(fn)
         if writes_process_state(fn, t.modmut.get(rel, set())):
             e = sorted(set(e) | {'process_state'})
+        if writes_instance_state(fn):
+            e = sorted(set(e) | {'instance_state'})
         if e:
             ent.append({'file': rel, 'function': qn, 'sources': e})
         mflag = mutation_of(fn)
